@@ -1,13 +1,13 @@
 #!/usr/bin/env python3
-"""regenerates rules/known_fns.json: the workspace functions (not closures) of the tree the rules were confirmed against.
-Run only when the rules have been re-confirmed against a new function decomposition of /repo."""
+"""regenerates rules/baseline.json: the functions (with signatures) and ADT layouts of the tree the rules were
+confirmed against.  Run only when the rules have been re-confirmed against a new decomposition of /repo."""
 import json, os, sys
 H = os.path.dirname(os.path.abspath(__file__))
 sys.path.insert(0, H)
-from rules import facts as F
-from rules.common import norm
-f = F.load(sys.argv[1] if len(sys.argv) > 1 else "/repo", normalise=False)
-ids = sorted(set(norm(i) for i, fn in f.fns.items() if fn.crate not in ("ext", "promoted") and fn.kind in ("Fn", "AssocFn")))
-json.dump(ids, open(os.path.join(H, "rules", "known_fns.json"), "w"), indent=0)
-print(len(ids), "functions")
-f.cleanup()
+from rules import facts as F, inline
+d, secs = F.build_facts(sys.argv[1] if len(sys.argv) > 1 else "/repo")
+raw = {c: json.load(open(os.path.join(d, "facts", c + ".json"))) for c in F.CRATES}
+b = inline.make_baseline(raw)
+json.dump(b, open(os.path.join(H, "rules", "baseline.json"), "w"), indent=0, sort_keys=True)
+print(len(b["fns"]), "functions,", len(b["adts"]), "adts")
+import shutil; shutil.rmtree(d, ignore_errors=True)
